@@ -344,3 +344,18 @@ package rlwe
 //@   nilable
 //@   havoc pt
 //@   ensures implies(isnil(err), n == announced(pt))
+
+// Plaintext.CopyNew: the convenience field Value of the copy is the copy's own first polynomial
+// (property C10: the copy owns its storage), not the original's.
+//@ afunc Element.CopyNew
+//@   trusted deep copy through the generic vector copy (element loop): assumed to return a new element with new storage
+
+//@ afunc Plaintext.CopyNew
+//@   property C10
+//@   ensures same(ptCpy.Value, ptCpy.Element.Value[0])
+//@   ensures !same(ptCpy.Value, pt.Value) && !same(ptCpy.Value, pt.Element.Value[0])
+
+// Parameters.Q lists the moduli of the parameter set's chain (ghost labels declared in schemes/bgv)
+//@ afunc Parameters.Q
+//@   trusted accessor loop over the sub-rings: assumed to list exactly the chain of the receiver
+//@   ensures chainof(result) == chainid(p)
